@@ -21,6 +21,10 @@ from props.refprops import all_findings, all_gates
 
 PID = "C11"
 THEOREMS = {"CbProps.C11": ["CbProps.C11." + t for t in ["keyL_injective", "cache_transparent", "second_use_hits"]],
+            "CbProps.C11Subst": ["CbProps.C11Subst." + t for t in [
+                "substIdents_tokenwise", "param_replaced", "plain_ident_kept", "underscore_ident_kept", "normalized_without_params_kept",
+                "normalized_args_replaced", "no_params_unchanged", "substGeneric_tree", "depth_lt_length", "substTypeString_generic",
+                "substTypeString_declarator"]],
             "CbOblig.C11": ["CbOblig.C11.key_format_is_modelled", "CbOblig.C11.clone_copies_every_child", "CbOblig.C11.subst_visits_every_child"]}
 
 TYWORDS = ["tiny", "short", "int", "long", "char", "bool"]
@@ -356,7 +360,84 @@ def agg_struct_in_fn(r):
     return gdefs, "".join(mdefs.values()), "".join(g), "".join(m), ["structfn%s<%s,%s>" % ("+pre" if pre else "", x, y) for x, y in pairs]
 
 
-AGGS = [("holder", agg_holder), ("ctor", agg_ctor), ("enum", agg_enum), ("structfn", agg_struct_in_fn)]
+def agg_enum_in_fn(r):
+    """a generic enum constructed and matched at the type parameter inside a generic function; the instantiation may or may
+    not also be spelled in main"""
+    gdefs = ("enum Maybe<T> {\n    Just(T),\n    Nothing\n};\n"
+             "int wrap<T>(T v, int some) {\n    Maybe<T> m = Maybe<T>::Nothing;\n    if (some > 0) {\n        m = Maybe<T>::Just(v);\n    }\n"
+             "    match (m) {\n        Just(w) => {\n            println(\"just\", w);\n        }\n        Nothing => {\n            println(\"nothing\");\n        }\n    }\n    return some;\n}\n")
+
+    def mono(x):
+        return (gdefs.replace("wrap<T>", M("wrap", [x])).replace("Maybe<T>", M("Maybe", [x])).replace("(T)", "(%s)" % x)
+                .replace("(T v", "(%s v" % x))
+    types = [r.choice(AGG_DOM) for _ in range(r.range(1, 3))]
+    pre = r.chance(40)
+    g, m = [], []
+    for k, x in enumerate(types):
+        if pre:
+            g.append("    Maybe<%s> pre%d = Maybe<%s>::Nothing;\n" % (x, k, x))
+            m.append("    %s pre%d = %s::Nothing;\n" % (M("Maybe", [x]), k, M("Maybe", [x])))
+    for _ in range(r.range(2, 5)):
+        k = r.below(len(types))
+        x = types[k]
+        val, some = r.choice(AGG_VALUES[x]), r.below(2)
+        g.append("    println(wrap<%s>(%s, %d));\n" % (x, val, some))
+        m.append("    println(%s(%s, %d));\n" % (M("wrap", [x]), val, some))
+    return gdefs, "".join(mono(x) for x in dict.fromkeys(types)), "".join(g), "".join(m), ["enumfn%s<%s>" % ("+pre" if pre else "", x) for x in types]
+
+
+# ---- S4: substitute_type_string (hook H5) vs CbModel.TypeSubst
+S4_IDENTS = ["T", "U", "K", "V", "E", "Tmp", "T1", "xT", "TT", "_N", "Tail_", "Node_T", "My__node", "Option_T", "Result_T_E", "Option_int",
+             "My_opt_T", "My_opt", "Option", "Result", "Opt__T", "Option_", "_", "__", "T_", "_T", "Option_T_", "int", "long", "string",
+             "Box", "Pair", "unsigned", "const", "a1_b2", "Result_K_V_T"]
+S4_ARGS = ["int", "long", "string", "Box<long>", "T", "U*", "", "Pair<int, long>", "my_type", "unsigned int", "K"]
+S4_ENUMS = ["Option", "Result", "My_opt", "Node", "My", "Opt", "Option_T", "a1", "T", "_"]
+
+
+def s4_declarator(r):
+    out = []
+    if r.chance(30):
+        out.append(r.choice(["const ", "unsigned ", "const unsigned ", " ", "\t"]))
+    out.append(r.choice(S4_IDENTS))
+    for _ in range(r.below(4)):
+        out.append(r.choice(["*", "**", "&", "[3]", "[N]", "[T]", " ", "[]", "[3][4]", " T", "3", "::U", "(T)", ", U", "-T", "T"]))
+    return "".join(out)
+
+
+def s4_tree(r, depth):
+    if depth == 0 or r.chance(45):
+        return r.choice(S4_IDENTS + ["T*", " T", "T ", "const T", "T[3]", "U&", "unsigned int", "\tK"])
+    args = [s4_tree(r, depth - 1) for _ in range(r.range(0, 3))]
+    sep = r.choice([", ", ", ", ",", " , ", ",  ", ",\t"])
+    return r.choice(["Box", "Pair", "Map", "T", "Option", "", "const Box", "My_opt"]) + "<" + sep.join(args) + ">"
+
+
+def s4_case(r):
+    k = r.below(100)
+    if k < 35:
+        ty = s4_declarator(r)
+    elif k < 75:
+        ty = s4_tree(r, 3) + r.choice(["", "", "*", "&", "[3]", " ", "**", "[T]", ">", "<", "> x", " T"])
+    elif k < 85:
+        # damaged generic names: missing / extra brackets, stray commas
+        t = s4_tree(r, 2)
+        i = r.below(len(t) + 1)
+        ty = t[:i] + r.choice(["<", ">", ",", "", " ", ">>", "<<"]) + t[i + r.below(2):]
+    else:
+        ty = "".join(r.choice("TU_<>,*&[] 3ab\tK") for _ in range(r.range(0, 14)))
+    keys = []
+    for _ in range(r.range(0, 3)):
+        kname = r.choice(["T", "U", "K", "V", "E", "Node", "T1", "Option", "int", "_N", "T*", ""])
+        if kname not in keys:
+            keys.append(kname)
+    kv = []
+    for kname in keys:
+        kv += [kname, r.choice(S4_ARGS)]
+    enums = [e for e in S4_ENUMS if r.chance(30)]
+    return [ty, ";".join(enums)] + kv
+
+
+AGGS = [("enumfn", agg_enum_in_fn), ("holder", agg_holder), ("ctor", agg_ctor), ("enum", agg_enum), ("structfn", agg_struct_in_fn)]
 
 
 def aggregate_case(r):
@@ -370,7 +451,7 @@ def aggregate_case(r):
 def main(a):
     v = common.Verdict(PID, a.tier, a.seed)
     common.run_translators(v, ["generic"])
-    driver_ok, failed = common.lean_obligations(v, ["CbProofs", "CbProps.C11", "CbOblig.C11"], THEOREMS)
+    driver_ok, failed = common.lean_obligations(v, ["CbProofs", "CbProps.C11", "CbProps.C11Subst", "CbOblig.C11"], THEOREMS)
     exe, blog = common.build_impl()
     if exe is None or not driver_ok:
         v.violation("cannot build the interpreter / driver: " + (blog or "")[-600:], {"log": (blog or "")[-2000:]}, no_input=True)
@@ -403,6 +484,12 @@ def main(a):
 
     if a.replay:
         rp = json.load(open(a.replay))
+        if "line" in rp:
+            _, m1, _ = common.run_lines([common.driver_path(), "c11subst"], [rp["line"]])
+            _, i1, _ = common.run_lines(["env", "CB_VERIF_SUBST=1", exe], [rp["line"]])
+            if m1 != i1:
+                report("replay", "substitute_type_string: model %r, implementation %r" % (m1, i1), rp)
+            return v.finish()
         outs = common.run_programs(exe, [rp["generic_program"], rp["twin_program"]], timeout=10)
         if outs[0][0] != outs[1][0] or outs[0][1] != outs[1][1]:
             report("replay", "generic and twin differ: %r (%s) vs %r (%s)" % (outs[0][0][-100:], outs[0][1], outs[1][0][-100:], outs[1][1]), rp)
@@ -472,6 +559,26 @@ def main(a):
             {"generic_program": gsrc, "twin_program": msrc, "instantiations": uses, "generic_stdout": o1[0], "generic_exit_class": o1[1],
              "generic_stderr": o1[2][-300:], "twin_stdout": o2[0], "twin_exit_class": o2[1]},
             cells=["agg:" + u.split("<")[0] for u in uses])
+    # ---- S4: the type-name substitution itself (hook H5) vs the model the theorems of CbProps.C11Subst are about
+    n4 = 4000 if quick else 400000
+    cases4 = [s4_case(r) for _ in range(n4)]
+    lines4 = ["\t".join(common.esc(f) for f in c) for c in cases4]
+    _, mo4, _ = common.run_lines_parallel([common.driver_path(), "c11subst"], lines4)
+    rc4, io4, ie4 = common.run_lines_parallel(["env", "CB_VERIF_SUBST=1", exe], lines4)
+    dist["type-substitution"] = len(cases4)
+    changed = 0
+    if len(mo4) != len(lines4) or len(io4) != len(lines4):
+        v.violation("S4: the substitution hook / driver did not answer every line (model %d, implementation %d of %d; rc %s; %s)" % (
+            len(mo4), len(io4), len(lines4), rc4, (ie4 or "")[-300:]), {"lines": lines4[:20]}, no_input=True)
+    else:
+        for c, l, m_, i_ in zip(cases4, lines4, mo4, io4):
+            nontrivial.add(("s4", l))
+            changed += 1 if common.unesc(m_) != c[0] else 0
+            if m_ != i_:
+                report("type-substitution", "substitute_type_string(%r, map %r, generic enums %r): model %r, implementation %r" % (
+                    c[0], dict(zip(c[2::2], c[3::2])), c[1], common.unesc(m_), common.unesc(i_)),
+                    {"fields": c, "line": l, "model": m_, "implementation": i_})
+    v.coverage["type_strings_changed_by_substitution"] = changed
     for key, whats in sorted(census.items(), key=lambda kv: str(kv[0])):
         common.log("CENSUS %s x%d: %s" % (key, len(whats), whats[0][:300]))
     for f in findings:
